@@ -420,8 +420,34 @@ Lemma read_value sh t ts l :
 Proof. unfold read. destruct (lk_tgt l); simpl; split; reflexivity. Qed.
 
 (* ---- facts about [rebind] to a DIFFERENT target ---- *)
+(* the clamp: a request time that is not in the future always runs in the current cycle *)
+Lemma nested_slot_now when now : when <= now -> nested_slot when now = now.
+Proof. unfold nested_slot. lia. Qed.
+
+Lemma wake_true op now when : when <= now -> wake op now when = true.
+Proof.
+  intros H. unfold wake, nested_runs. destruct (in_nested op); [|reflexivity].
+  destruct (wrapped op); rewrite nested_slot_now by lia; apply Z.eqb_refl.
+Qed.
+
+(* ... at any nesting depth: the request is clamped once per boundary it crosses *)
+Lemma nested_slot_iter d when now :
+  when <= now -> Nat.iter (S d) (fun w => nested_slot w now) when = now.
+Proof.
+  intros H. induction d as [|d IH].
+  - simpl. apply nested_slot_now. exact H.
+  - change (Nat.iter (S (S d)) (fun w => nested_slot w now) when)
+      with (nested_slot (Nat.iter (S d) (fun w => nested_slot w now) when) now).
+    rewrite IH. apply nested_slot_now. lia.
+Qed.
+
+(* without the clamp (slot written first: the seeded change C13w3-clamp-after-child-slot-write) a
+   replayed older time never matches the exact-time loop *)
+Lemma unclamped_slot_never_runs when now : when < now -> (when =? now) = false.
+Proof. intros H. apply Z.eqb_neq. lia. Qed.
+
 Lemma rebind_other_valid sh op t ts s l :
-  lk_tgt l <> Some s -> tvalid (get_t ts s) = true ->
+  lk_tgt l <> Some s -> tvalid (get_t ts s) = true -> tlmt (get_t ts s) <= t ->
   rebind sh op t ts s l =
   (mkL (Some s) t (if is_keyed sh then t else MIN_DT)
        (if is_keyed sh then match lk_tgt l with Some o => contents_before t (get_t ts o) | None => [] end else [])
@@ -429,10 +455,10 @@ Lemma rebind_other_valid sh op t ts s l :
                             | Some o => if tlmt (get_t ts o) <? t then trem (get_t ts o) else []
                             | None => [] end else []), true).
 Proof.
-  intros Hne Hv. unfold rebind.
+  intros Hne Hv Hle. unfold rebind.
   assert (E : match lk_tgt l with Some cur => same_target op cur s | None => false end = false).
   { destruct (lk_tgt l) as [cur|]; [|reflexivity]. rewrite same_target_eqb. apply Nat.eqb_neq. congruence. }
-  rewrite E, Hv. simpl. destruct (is_keyed sh); reflexivity.
+  rewrite E, Hv, (wake_true op t _ Hle). simpl. destruct (is_keyed sh); reflexivity.
 Qed.
 
 Lemma rebind_other_tgt sh op t ts s l :
@@ -598,10 +624,10 @@ Proof.
   destruct Hc as [(Hsame & _)|(j' & Hcur' & Hne' & Hr & Href)].
   - rewrite Hcur in Hsame. symmetry in Hsame. contradiction.
   - rewrite Hcur in Hcur'. injection Hcur' as <-.
-    rewrite rebind_other_valid in Hr by (rewrite ?Hl1, ?Hts; auto).
-    injection Hr as <- <-. rewrite orb_true_r in Hcons.
     assert (Hle : tlmt (get_t ts j) <= c_t c).
     { rewrite Hts by exact Hj. pose proof (spec_tgt_lmt_le sh j _ Hwf) as H. rewrite last_t_snoc in H. exact H. }
+    rewrite rebind_other_valid in Hr; [|rewrite Hl1; exact Hne'|rewrite Hts; auto|exact Hle].
+    injection Hr as <- <-. rewrite orb_true_r in Hcons.
     pose proof (read_rebound sh (c_t c) ts j
                   (if is_keyed sh then match lk_tgt l1 with Some o => contents_before (c_t c) (get_t ts o) | None => [] end else [])
                   (if is_keyed sh then match lk_tgt l1 with
